@@ -393,6 +393,103 @@ def worker(job):
     return part.dump()
 
 
+def listing_differs(lst, exp):
+    if len(lst) != len(exp):
+        return 'length %d, expected %d' % (len(lst), len(exp))
+    for j, (e, l) in enumerate(zip(exp, lst)):
+        if e[0] == 'op' and not op_text_ok(l['text'], e[1], e[2]):
+            return 'line %d is %r' % (j, l['text'][:60])
+        if e[0] == 'header' and not l['text'].startswith('<<<'):
+            return 'line %d is not a section header' % j
+    return None
+
+
+def exec_redeem_worker(job):
+    """P2SH spends in which `exec` changes what is on top of the stack when the scriptSig ends - i.e. the redeem script that is going to
+    be run (a debugging session that repairs a scriptSig carrying the wrong redeem script).  "At every point of a session" the
+    P2SH section of the listing is the decoding of the bytes that WILL be executed: after the exec that is the new script."""
+    bindir, idx, n = job
+    rng = sub_rng(PROP, 'exec-redeem', idx)
+    part = Partial()
+    wd = scratch('c12x')
+    btcdeb = os.path.join(bindir, 'btcdeb')
+    try:
+        for i in range(n):
+            A = rng.choice([bytes([OP_1]), bytes([OP_1, OP_1, OP_ADD]), bytes([OP_2, OP_DROP, OP_1]), bytes([OP_NOP, OP_1]), push_only(b'\xaa\xbb') + bytes([OP_DROP, OP_1])])
+            B = rng.choice([bytes([OP_2, OP_3, OP_ADD, OP_5, OP_EQUAL]), bytes([OP_1]), bytes([OP_7, OP_DUP, OP_EQUALVERIFY, OP_1, OP_1, OP_ADD]), push_only(bytes(range(1, 40))) + bytes([OP_SIZE, OP_NIP]),
+                            bytes([OP_1, OP_IF, OP_2, OP_ELSE, OP_3, OP_ENDIF]), bytes([OP_NOP]) * rng.choice([1, 9, 30]) + bytes([OP_1])])
+            if A == B:
+                continue
+            variant = rng.choice(['replace', 'replace', 'add'])
+            ssig = (push_only(bytes(rng.randrange(1, 256) for _ in range(rng.choice([2, 5, 20]))) + b'\x01') if rng.random() < 0.5 else b'') + push_only(A)
+            spk = bytes([OP_HASH160, 20]) + hash160(B) + bytes([OP_EQUAL])
+            fund = rsign.funding_tx(rng, [(10000, spk)])
+            tx = rsign.spending_tx(rng, [(rtx.txid(fund), 0)], nout=1, version=2, locktime=0, sequences=[0xffffffff])
+            tx.vin[0][2] = ssig
+            tx.wit = None
+            sessA = dict(scripts=[('scriptSig', ssig), ('scriptPubKey', spk), ('P2SH script', A)], commit=0)
+            sessB = dict(scripts=[('scriptSig', ssig), ('scriptPubKey', spk), ('P2SH script', B)], commit=0)
+            expA, expB = expected_entries(sessA), expected_entries(sessB)
+            k = len(decode_all(ssig))
+            hdr = [j for j, e in enumerate(expB) if e[0] == 'header'][1]      # line of the P2SH section header
+            execcmd = 'exec ' + ('OP_DROP ' if variant == 'replace' else '') + '0x' + B.hex()
+            cmds = ['print'] + ['step', 'print'] * k + [execcmd, 'print'] + ['step', 'print'] * (len(expB) - k + 1)
+            args = ['--modify-flags=-CLEANSTACK', '--tx=' + rtx.ser_tx(tx).hex(), '--txin=' + rtx.ser_tx(fund).hex()]
+            r, segs = proc.repl_session(btcdeb, args, cmds, wd, timeout=120)
+            part.evaluations += 1
+            wit = dict(kind='p2sh-exec-changes-redeem-script/' + variant, args=[a[:300] for a in args], scriptsig=ssig.hex(), redeem_in_scriptsig=A.hex(), redeem_after_exec=B.hex(), exec=execcmd)
+            if r.abnormal:
+                part.violation('session:' + r.crash_key('btcdeb'), dict(wit, run=r.brief()))
+                continue
+            if len(segs) != len(cmds) + 1:
+                part.violation('session-ended-early', dict(wit, got=len(segs), want=len(cmds) + 1))
+                continue
+            part.count('sessions', 'p2sh-exec-changes-redeem-script/' + variant)
+            pos = 0
+            after = False
+            found = {}
+            for ci, c in enumerate(cmds):
+                seg = segs[ci + 1]
+                if c == 'step':
+                    exp = expB if after else expA
+                    d = seg['dump']
+                    if pos < len(exp):
+                        e = exp[pos]
+                        if e[0] == 'op' and after and (d['opcode'] != e[1] or bytes.fromhex(d['push']) != e[2]):
+                            found.setdefault('executed-op-is-not-the-one-of-the-new-redeem-script', 'step %d executed opcode %d' % (pos, d['opcode']))
+                        pos += 1
+                    tbl = parse_table(seg['out'])
+                    if tbl is not None and after:
+                        tb = table_matches(tbl, exp, min(pos, len(exp)))
+                        if tb:
+                            found.setdefault('table-p2sh-section-stale-after-exec:' + ('before-the-switch' if pos <= hdr else 'after-the-switch'), tb)
+                elif c.startswith('exec'):
+                    after = True
+                    tbl = parse_table(seg['out'])
+                    if tbl is not None:
+                        tb = table_matches(tbl, expB, pos)
+                        if tb:
+                            found.setdefault('table-p2sh-section-stale-after-exec:before-the-switch', tb)
+                else:
+                    exp = expB if after else expA
+                    lst = parse_print(seg['out'])
+                    where = 'before-the-switch' if pos <= hdr else 'after-the-switch'
+                    dif = listing_differs(lst, exp)
+                    if dif:
+                        found.setdefault(('p2sh-section-stale-after-exec:' + where) if after else 'listing-differs-before-exec', dif)
+                    marked = [j for j, l in enumerate(lst) if l['marked']]
+                    if marked != ([pos] if pos < len(exp) else []) and not dif:
+                        found.setdefault(('marker-on-wrong-line-after-exec:' + where) if after else 'marker-on-wrong-line', 'pos %d marked %s' % (pos, marked))
+            for key, detail in found.items():
+                part.violation(key, dict(wit, detail=detail))
+            if not found:
+                part.count('prefixes_checked', 'n', len(cmds))
+                part.nontrivial.add(nt_hash('execredeem', ssig, A, B, variant))
+    finally:
+        cleanup_scratch(wd)
+    return part.dump()
+
+
 def main():
     ap = argparse.ArgumentParser()
     ap.add_argument('--tier', default=os.environ.get('VERIF_TIER', 'quick'))
@@ -408,10 +505,12 @@ def main():
     n = 80 if a.tier == 'quick' else 2000
     for r in parallel(worker, [(bindir, i, n) for i in range(16)]):
         rep.merge(r)
+    for r in parallel(exec_redeem_worker, [(bindir, i, 4 if a.tier == 'quick' else 80) for i in range(16)]):
+        rep.merge(r)
     pc = rep.tables.get('prefixes_checked', {}).get('n', 0)
     return rep.finish(
         rule='interactive sessions of the real binary through the scripted REPL: plain scripts (incl. pushes of 76..520 bytes), plain P2SH-template scripts, and --tx/--txin spends of every output type '
-             '(scriptSig + scriptPubKey + P2SH sections, P2WPKH preamble, P2WSH, taproot key path, tapscript with path lengths 0..3 and 128); in each session `print` after every command of a plan that steps to the end with rewinds sprinkled in; '
+             '(scriptSig + scriptPubKey + P2SH sections, P2WPKH preamble, P2WSH, taproot key path, tapscript with path lengths 0..3 and 128); in each session `print` after every command of a plan that steps to the end with rewinds sprinkled in; plus P2SH spends in which `exec` replaces the redeem script on the stack before the scriptPubKey takes over (listing, table and marker must follow); '
              'non-trivial = distinct session whose listing equalled the reference decoding and whose marker matched the executed operation at every prefix',
         assumptions=['opcode spelling is not prescribed: "0"/"OP_0", "1".."16", "-1" and OP_NOP2/3 aliases are accepted', 'vdump (hook) reports the opcode and push value of the operation the implementation executed last'],
         extra={'prefixes_checked': pc}, min_events=100, observed=pc)
